@@ -19,6 +19,7 @@ class P(vlib.Prop):
         dict(name="parse", cmd="c04", args=lambda t, s: ["-stage", "parse"]),
         dict(name="sweep", cmd="c04", args=lambda t, s: ["-stage", "sweep"]),
         dict(name="repos", cmd="c04", args=lambda t, s: ["-stage", "repos"]),
+        dict(name="vctx", cmd="c04", args=lambda t, s: ["-stage", "vctx"]),
     )
     assumptions = (
         "SHA-1/SHA-256, RSA PKCS1v15 verification and the APKINDEX text parser are Section variables; theorems speak about the verify oracle's answer and equality of what is hashed, not about collision resistance",
